@@ -252,8 +252,11 @@ def build(d, route="event", rng=None, lambda_backend=True, order=None, reuse=Fal
 
     LONG = {"T": "between states", "B": "birth process", "D": "death process"}
 
-    def mk_tr(tr, eqn=None, birth_by_origin=False):
+    def mk_tr(tr, eqn=None, birth_by_origin=None):
         a = dict(transition_type=tr["ty"], magnitude=tr["mag"])
+        if birth_by_origin is None:
+            # a birth may name its state as origin (the older spelling) on every route, Event members included
+            birth_by_origin = bool(tr["ty"] == "B" and rng is not None and rng.random() < 0.3)
         if rng is not None and rng.random() < 0.12:
             a["transition_type"] = LONG[tr["ty"]]          # the documented long spelling of the type
         if tr["ty"] == "B":
